@@ -1200,10 +1200,24 @@ func checkPutSyncedTo(c *Ctx, ps *ssa.Function) {
 				okPre := len(hits) == 0
 				if f != ps {
 					// ... and PutSyncedTo runs that part before it writes
+					// (under whatever condition PutSyncedTo asks at all — `Height > 0` today, which the rule on the
+					// body does not constrain either: no write comes before the call of the part)
 					part := f
-					q2 := &PathQuery{Fn: ps, Barrier: func(ins ssa.Instruction) bool { return p.isCallTo(ins, part) }}
-					q2.Target = func(ins ssa.Instruction, _ *ssa.BasicBlock) bool { return isWrite(ins) }
-					if len(q2.From(nil)) > 0 {
+					sites := 0
+					for _, ci := range callsOf(ps) {
+						if p.isCallTo(ci, part) {
+							sites++
+						}
+						if !isWrite(ci) {
+							continue
+						}
+						q2 := &PathQuery{Fn: ps}
+						q2.Target = func(ins ssa.Instruction, _ *ssa.BasicBlock) bool { return p.isCallTo(ins, part) }
+						if len(q2.From(ci)) > 0 {
+							okPre = false
+						}
+					}
+					if sites == 0 {
 						okPre = false
 					}
 				}
